@@ -146,6 +146,7 @@ func runCase(f []string) string {
 			return "error\tlost blobs"
 		}
 	}
+	resultFails := len(f) > 6 && f[6] == "1"
 	// the cache as prepared, but for the lost blobs; put back when the case is over (a re-run writes to it)
 	store.mu.Lock()
 	saved := make(map[string][]byte, len(store.data))
@@ -189,16 +190,19 @@ func runCase(f []string) string {
 	registry := output.NewRegistry(ctx, caching.NewCas(store))
 	ex := execution.NewExecutor(caching.NewTargetResultCache(store), caching.NewTaintCache(store), registry, graph,
 		false, false, true, config.LoadOutputsMinimal)
-	return schedule(p, n, k, ex, deps, w.SplitComma(f[3]))
+	return schedule(p, n, k, ex, deps, w.SplitComma(f[3]), resultFails)
 }
 
-func schedule(p *prepared, n, k int, ex *execution.Executor, deps []*model.Target, tokens []string) string {
+func schedule(p *prepared, n, k int, ex *execution.Executor, deps []*model.Target, tokens []string, resultFails bool) string {
 	// no garbage collection while a schedule runs (its helpers are system goroutines that a stack dump does not show);
 	// one collection between two cases, when everything is idle
 	runtime.GC()
 	defer debug.SetGCPercent(debug.SetGCPercent(-1))
 	store.mu.Lock()
-	store.armed, store.blobs, store.held, store.events = true, p.digests, nil, nil
+	store.armed, store.blobs, store.held, store.events, store.failTarget = true, p.digests, nil, nil, ""
+	if resultFails {
+		store.failTarget = p.changeHash
+	}
 	store.mu.Unlock()
 	var mu sync.Mutex
 	started, finished := make([]bool, k), make([]bool, k)
@@ -308,7 +312,7 @@ func schedule(p *prepared, n, k int, ex *execution.Executor, deps []*model.Targe
 	for _, h := range store.held {
 		close(h.release)
 	}
-	store.held, store.armed = nil, false
+	store.held, store.armed, store.failTarget = nil, false, ""
 	store.mu.Unlock()
 	for depRuns.release() >= 0 {
 	}
